@@ -5,25 +5,37 @@
    Stop(ctx):  stopOnce.Do(func() {
                  defer close(exitedChan)
      O1          exit(); close the listeners
-     O2          mu.Lock(); for every REGISTERED client: remember its `closed` channel, c.Close(); mu.Unlock()
+     O2          mu.Lock(); for every client in srv.clients and every connection in srv.connecting:
+                 remember its `closed` channel, c.Close(); mu.Unlock()
      O3          select { <-ctx.Done(): return ctx.Err()           (O7: timeout return, no Unload, no OnStop)
                           <-done (all remembered `closed` channels are closed): }
      O4          plugins: Unload()       O5  hooks.OnStop()        O6  return
                })
    A second caller waits in stopOnce.Do until the first has returned (C8), then returns (C9).
 
-   A connection is: 0 Connecting (accepted, CONNECT not completed: not in srv.clients),
-   1 Registered, 2 Closing (its socket is closed, the goroutines are winding down),
-   3 Closed (internalClose has closed `closed`).  A connection whose socket has been closed always
-   reaches Closed: that is C15_conn_no_stuck (Model/ConnLife.v; before the repairs 6670bb6 and
-   b002260 a connection could stay blocked for ever and this model had a state 4 "Stuck" for it).
-   `ctx_may_expire` says whether the caller's context can expire while Stop waits. *)
+   A connection is (constants KN, KA, ...): KN not yet accepted; KA accepted - Accept has returned, the OnAccept
+   hook / newClient are running, the connection is in NEITHER map yet; KC connecting - in
+   srv.connecting (since 1d02d65: newClient ends with addConnecting); KR registered - in srv.clients;
+   KF connect failed or refused - still in srv.connecting, socket open until the peer or Stop closes it;
+   KX closing - its socket is closed, the goroutines are winding down (it leaves its map in
+   internalClose, i.e. when it becomes KD); KD closed - internalClose has closed `closed`.
+   A connection whose socket has been closed always reaches KD: that is C15_conn_no_stuck
+   (Model/ConnLife.v).  registerClient refuses a CONNECT once exit() has run (1d02d65): KC -> KR only
+   while the listeners are open (O1 runs exit() and closes the listeners in one step of the model).
+   addConnecting closes a connection that it records after exit() (9fa9d46): KA -> KX instead of
+   KA -> KC; such a connection is in srv.connecting with its socket closed: never served.
+   Stop's locked block lists srv.clients AND srv.connecting: KR, KC, KF and KX connections are
+   remembered (w) and closed.  `ctx_may_expire` says whether the caller's context can expire while
+   Stop waits. *)
 From Coq Require Import List Arith Bool.
 Import ListNotations.
 
 Definition C0 := 0. (* not called yet *)
 Definition O1 := 1. Definition O2 := 2. Definition O3 := 3. Definition O4 := 4. Definition O5 := 5.
 Definition O6 := 6. Definition O7 := 7. Definition C8 := 8. Definition C9 := 9.
+
+Definition KA := 0. Definition KR := 1. Definition KX := 2. Definition KD := 3.
+Definition KC := 5. Definition KF := 7. Definition KN := 8.
 
 Record sst := mk_sst {
   cA : nat; cB : nat;            (* the two callers of Stop *)
@@ -38,7 +50,7 @@ Record sst := mk_sst {
 }.
 
 Definition sinit (expire : bool) : sst :=
-  mk_sst C0 C0 0 true 0 0 false false false 0 0 false expire.
+  mk_sst C0 C0 0 true KN KN false false false 0 0 false expire.
 
 Definition when {A} (b : bool) (l : list A) : list A := if b then l else [].
 
@@ -60,7 +72,8 @@ Definition set_exited s v := mk_sst (cA s) (cB s) (once s) (lst s) (k1 s) (k2 s)
    source each one stands for (Proofs/StopLifeP.v proves that this is the order of the operations in
    the body of stopOnce.Do as regenerated into Gen/StopOrder.v, and that step_caller follows it):
      O1  exit(); close every TCP listener; shut down every websocket server
-     O2  srv.mu.Lock(); remember `closed` of and Close() every REGISTERED client; srv.mu.Unlock()
+     O2  srv.mu.Lock(); remember `closed` of and Close() every client in srv.clients and every
+         connection in srv.connecting; srv.mu.Unlock()
      O3  start the waiter; select { ctx.Done() -> O7 ; all remembered channels closed -> O4 }
      O4  Unload of every plugin        O5  OnStop hook        (O6/O7: return, deferred close(exitedChan)) *)
 Definition owner_phases : list nat := [O1; O2; O3; O4; O5].
@@ -68,8 +81,11 @@ Definition owner_phases : list nat := [O1; O2; O3; O4; O5].
 Definition caller (a : bool) (s : sst) : nat := if a then cA s else cB s.
 Definition conn (first : bool) (s : sst) : nat := if first then k1 s else k2 s.
 
-(* c.Close() on a registered connection *)
-Definition close_conn (k : nat) : nat := if Nat.eqb k 1 then 2 else k.
+(* the connection is in srv.clients or in srv.connecting *)
+Definition in_maps (k : nat) : bool := Nat.eqb k KR || Nat.eqb k KC || Nat.eqb k KF || Nat.eqb k KX.
+
+(* c.Close() on a listed connection *)
+Definition close_conn (k : nat) : nat := if in_maps k then KX else k.
 
 Definition step_caller (a : bool) (s : sst) : list sst :=
   match caller a s with
@@ -81,7 +97,7 @@ Definition step_caller (a : bool) (s : sst) : list sst :=
       end
   | 1 (* O1 *) => [set_caller a (set_lst s false) O2]
   | 2 (* O2 *) =>
-      let s1 := set_w s (Nat.eqb (k1 s) 1) (Nat.eqb (k2 s) 1) in
+      let s1 := set_w s (in_maps (k1 s)) (in_maps (k2 s)) in
       let s2 := set_k true s1 (close_conn (k1 s1)) in
       let s3 := set_k false s2 (close_conn (k2 s2)) in
       [set_caller a s3 O3]
@@ -98,9 +114,14 @@ Definition step_caller (a : bool) (s : sst) : list sst :=
 
 Definition step_conn (first : bool) (s : sst) : list sst :=
   match conn first s with
-  | 0 => [set_k first s 1; set_k first s 3]
-  | 1 => [set_k first s 2]
-  | 2 => [set_k first s 3]
+  | 8 (* KN *) => when (lst s) [set_k first s KA]                 (* Accept returns only while the listener is open *)
+  | 0 (* KA *) => [set_k first s (if lst s then KC else KX);      (* newClient: addConnecting - closes it after exit() *)
+                   set_k first s KD]                              (* the OnAccept hook refuses: rw.Close() *)
+  | 5 (* KC *) => when (lst s) [set_k first s KR]                 (* CONNECT registers - refused after exit() *)
+                  ++ [set_k first s KF; set_k first s KX]         (* refused, auth failure, timeout / the peer hangs up *)
+  | 7 (* KF *) => [set_k first s KX]
+  | 1 (* KR *) => [set_k first s KX]
+  | 2 (* KX *) => [set_k first s KD]
   | _ => []
   end.
 
@@ -109,7 +130,7 @@ Definition snext (s : sst) : list sst :=
 
 Definition rank_caller (pc : nat) : nat :=
   match pc with 0 => 10 | 1 => 8 | 2 => 7 | 3 => 6 | 4 => 5 | 5 => 4 | 6 => 3 | 7 => 3 | 8 => 2 | _ => 0 end.
-Definition rank_conn (k : nat) : nat := match k with 0 => 3 | 1 => 2 | 2 => 1 | _ => 0 end.
+Definition rank_conn (k : nat) : nat := match k with 8 => 7 | 0 => 6 | 5 => 5 | 7 => 3 | 1 => 3 | 2 => 1 | _ => 0 end.
 
 Definition smeasure (s : sst) : nat :=
   rank_caller (cA s) + rank_caller (cB s) + rank_conn (k1 s) + rank_conn (k2 s).
@@ -134,20 +155,60 @@ Definition exactly_once_on_return (s : sst) : bool :=
 (* OnStop only after Unload, both only after every remembered connection is closed *)
 Definition order_ok (s : sst) : bool :=
   Nat.leb (ons s) (unl s)
-  && (Nat.eqb (unl s) 0 || ((negb (w1 s) || Nat.eqb (k1 s) 3) && (negb (w2 s) || Nat.eqb (k2 s) 3))).
+  && (Nat.eqb (unl s) 0 || ((negb (w1 s) || Nat.eqb (k1 s) KD) && (negb (w2 s) || Nat.eqb (k2 s) KD))).
 
-(* FULL statement about connections: when Stop has returned without timeout, every connection is closed *)
+(* the locked block has run: the owner is past O2 (or the Once is done) *)
+Definition snap_done (s : sst) : bool :=
+  let past (pc : nat) := Nat.leb O3 pc && Nat.leb pc O7 in
+  Nat.eqb (once s) 2 || past (cA s) || past (cB s).
+
+Definition seen_closed (w : bool) (k : nat) : bool := negb w || Nat.eqb k KD.
+
+(* every connection that Stop listed - registered or not - is closed when Stop returns without timeout *)
+Definition listed_closed_on_return (s : sst) : bool :=
+  negb (returned s) || ctx s || (seen_closed (w1 s) (k1 s) && seen_closed (w2 s) (k2 s)).
+
+(* after the locked block a registered connection is one that was listed: nobody registers later,
+   and after a return without timeout no connection is registered at all *)
+Definition registered_is_listed (s : sst) : bool :=
+  negb (snap_done s) || ((negb (Nat.eqb (k1 s) KR) || w1 s) && (negb (Nat.eqb (k2 s) KR) || w2 s)).
+
+Definition none_registered_on_return (s : sst) : bool :=
+  negb (returned s) || ctx s || (negb (Nat.eqb (k1 s) KR) && negb (Nat.eqb (k2 s) KR)).
+
+(* a transition does not register a connection once exit() has run *)
+Definition no_late_registration (s s' : sst) : bool :=
+  lst s || ((Nat.eqb (k1 s) KR || negb (Nat.eqb (k1 s') KR)) && (Nat.eqb (k2 s) KR || negb (Nat.eqb (k2 s') KR))).
+
+(* the connection is being served: socket open, its goroutines read and answer *)
+Definition served (k : nat) : bool := Nat.eqb k KC || Nat.eqb k KF || Nat.eqb k KR.
+
+(* once the locked block of Stop has run, no connection is served any more *)
+Definition none_served_after_snapshot (s : sst) : bool :=
+  negb (snap_done s) || (negb (served (k1 s)) && negb (served (k2 s))).
+
+(* a transition does not start serving a connection once exit() has run *)
+Definition no_late_service (s s' : sst) : bool :=
+  lst s || ((served (k1 s) || negb (served (k1 s'))) && (served (k2 s) || negb (served (k2 s')))).
+
+(* "when Stop has returned without timeout every accepted connection is closed": NOT true - Stop does
+   not wait for a connection that is recorded after its locked block *)
+Definition conn_gone (k : nat) : bool := Nat.eqb k KD || Nat.eqb k KN.
 Definition all_closed_on_return (s : sst) : bool :=
-  negb (returned s) || ctx s || (Nat.eqb (k1 s) 3 && Nat.eqb (k2 s) 3).
+  negb (returned s) || ctx s || (conn_gone (k1 s) && conn_gone (k2 s)).
 
-(* what holds: the connections that were registered when Stop looked are closed *)
-Definition registered_closed_on_return (s : sst) : bool :=
-  negb (returned s) || ctx s || ((negb (w1 s) || Nat.eqb (k1 s) 3) && (negb (w2 s) || Nat.eqb (k2 s) 3)).
+(* what is true: a connection that is not closed then was not listed, and it is either not yet
+   recorded (KA: addConnecting will close it) or closed by addConnecting and winding down (KX) *)
+Definition unlisted_unserved (w : bool) (k : nat) : bool := negb w && (Nat.eqb k KA || Nat.eqb k KX).
+Definition all_closed_or_unserved (s : sst) : bool :=
+  negb (returned s) || ctx s
+  || ((conn_gone (k1 s) || unlisted_unserved (w1 s) (k1 s)) && (conn_gone (k2 s) || unlisted_unserved (w2 s) (k2 s))).
 
-(* a connection that Stop did not see (still connecting when Stop took its snapshot) and that is
-   alive after Stop has returned *)
-Definition kf_unregistered_survives (s : sst) : bool :=
-  returned s && negb (ctx s) && ((negb (w1 s) && negb (Nat.eqb (k1 s) 3)) || (negb (w2 s) && negb (Nat.eqb (k2 s) 3))).
+(* Stop has returned and such a connection exists *)
+Definition late_recorded_not_waited_for (s : sst) : bool :=
+  returned s && negb (ctx s) && (unlisted_unserved (w1 s) (k1 s) || unlisted_unserved (w2 s) (k2 s)).
 
 (* where a run may end *)
 Definition both_returned (s : sst) : bool := Nat.eqb (cA s) C9 && Nat.eqb (cB s) C9.
+(* ... and every accepted connection is closed *)
+Definition all_over (s : sst) : bool := both_returned s && conn_gone (k1 s) && conn_gone (k2 s).
